@@ -1,3 +1,4 @@
+@classmethod
 def spec(cls, rate, generator=None):
     rate = _astensorsfloat(rate)
     return torch.poisson(rate, generator=generator)
